@@ -45,12 +45,15 @@ PROP = {
             "topics; handler scripts {result, error, unmarshalable result, panic, failing reply publish} with redelivery after Nack (several "
             "replies); AckCommandErrors on/off; no / 15-45 ms / 1 h ListenForReplyTimeout; callers {drain, read one then stop, never read, end "
             "the context before any reply, SendWithReply, parent context cancelled, SendWithReplies failing to send}; foreign notifications "
-            "injected; the reply Pub/Sub closed while contexts are alive (subscriber-closed path); the listener parked at "
+            "injected; the reply Pub/Sub closed while contexts are alive (subscriber-closed path); scenarios with and without an "
+            "OnListenForReplyFinished hook configured (without it the end of the listeners is taken from the goroutine census and the channel "
+            "itself must be found closed); the hook made to wait until the draining caller saw the close (order close -> hook, conformance leg); "
+            "the listener parked at "
             "requestreply.listen.before_send with a full reply channel, the context cancelled, then released (D12 interleaving); seeded yield "
             "injection. Per request the recorded stream must be a trace of the Lean listener model (subset construction); the whole trace must "
             "satisfy the property monitor (own replies only, result and error text of an own handler invocation, settlement per "
-            "AckCommandErrors and only after the reply Publish returned, channel closed and OnListenForReplyFinished exactly once for every "
-            "request, no listener goroutine left, nothing beyond the 20 s liveness bound). Non-trivial = published reply (cmd), >= 2 replies "
+            "AckCommandErrors and only after the reply Publish returned, channel closed for every request whether or not a hook is configured, "
+            "OnListenForReplyFinished exactly once where configured, no listener goroutine left, nothing beyond the 20 s liveness bound). Non-trivial = published reply (cmd), >= 2 replies "
             "held for the caller (lst), >= 2 requests with a redelivery (top).",
     "trusted_base": [
         "Lean 4.33.0 kernel; axioms per theorem under theorem_axioms",
